@@ -380,7 +380,7 @@ func c20ParamsN(p *tmproto.ConsensusParams) c20Rec {
 func (ch *c20Chain) junkEvidence() types.Evidence {
 	if ch.junkEv == nil {
 		ch.junkEv = types.NewMockDuplicateVoteEvidence(1, ch.genesis, ch.desc.ID)
-		ch.nm.regID("ev", "zz", ch.junkEv.Hash())
+		ch.nm.regID("evid", "zz", c20DupID(ch.junkEv.(*types.DuplicateVoteEvidence)))
 	}
 	return ch.junkEv
 }
@@ -397,7 +397,8 @@ func (ch *c20Chain) blockN(res *ctypes.ResultBlock) c20Rec {
 			at:   func(i int) interface{} { return c20TxL(&(*txs)[i]) },
 			drop: func() { *txs = (*txs)[:len(*txs)-1] }, add: func() { *txs = append(*txs, types.Tx("tx:zz")) },
 			swap: func() { (*txs)[0], (*txs)[1] = (*txs)[1], (*txs)[0] }},
-		"evidence": c20SeqN{ty: "sseq", n: func() int { return len(*evs) },
+		"evidence": c20SeqN{ty: "eseq", n: func() int { return len(*evs) },
+			at:   func(i int) interface{} { return ch.evN(evs, i) },
 			drop: func() { *evs = (*evs)[:len(*evs)-1] }, add: func() { *evs = append(*evs, ch.junkEvidence()) },
 			swap: func() { (*evs)[0], (*evs)[1] = (*evs)[1], (*evs)[0] }},
 		"last_commit": nm.commitN(b.LastCommit),
@@ -632,7 +633,7 @@ func (nm *c20Names) applyHow(node interface{}, how string, other interface{}, ha
 			f = n.dup
 		case "swap":
 			f = n.swap
-		case "addh", "adds":
+		case "addh", "adds", "adde":
 			f = n.add
 		case "forge":
 			f = n.forge
@@ -803,7 +804,15 @@ func (be *c20Backend) IsRunning() bool { return true }
 
 // apply the case's lie to the concrete response `res` of kind `kind` asked with args a
 func (ch *c20Chain) falsify(kind string, a c20Arg, f c20Lie, root func() c20Rec, otherRoot func(oh int64) (c20Rec, bool),
-	cohere func(path []string)) error {
+	cohere func(path []string)) (err error) {
+	defer func() { // a panic of the falsifier is a harness failure, never an outcome of the call under test
+		if r := recover(); r != nil {
+			if he, ok := r.(c20HarnessErr); ok {
+				panic(he)
+			}
+			panic(c20HarnessErr{fmt.Errorf("falsifier panicked on %s %+v: %v", kind, f, r)})
+		}
+	}()
 	for _, e := range f.Edits {
 		node, ok := c20Resolve(root(), e.Path)
 		if !ok {
